@@ -952,6 +952,23 @@ def _arith512(ex, st, ins, args, m):
     return lanewise2(args, lambda x, y, w: fp.binop(opn, mode, x, y, w))
 
 
+@model(r'llvm\.x86\.avx512\.sqrt\.(ps|pd)\.512')
+def _sqrt512(ex, st, ins, args, m):
+    # embedded rounding: 4 = MXCSR.RC, 8..11 = static mode with SAE
+    r = const_int(args[1])
+    mode = st.rm if r == 4 else [fp.RNE, fp.RTN, fp.RTP, fp.RTZ][r & 3]
+    return lanewise1(args[:1], lambda x, w: fp.sqrt(mode, x, w))
+
+
+@model(r'llvm\.x86\.avx512\.vfmadd\.(ps|pd)\.512')
+def _fma512(ex, st, ins, args, m):
+    r = const_int(args[3])
+    mode = st.rm if r == 4 else [fp.RNE, fp.RTN, fp.RTP, fp.RTZ][r & 3]
+    w = W(args[0])
+    return [(fp.fma(mode, a, b, c, w), b_or(pa, pb, pc))
+            for (a, pa), (b, pb), (c, pc) in zip(vals(args[0]), vals(args[1]), vals(args[2]))]
+
+
 @model(r'llvm\.x86\.avx512\.fpclass\.(ps|pd)\.(\d+)')
 def _fpclass(ex, st, ins, args, m):
     imm = const_int(args[1])
